@@ -9,7 +9,7 @@ import vlib
 PROG = "uconn"
 VIOLATION_KINDS = {"WireIsRaw", "EditsVisible", "RawIsLastSent", "norm", "RebuildMustFail"}
 VIOLATION_ORDER = {"hello-written-without-rebuild", "hello-written-unasked"}
-MUTATORS = ["SetClientRandom", "SetSNI", "RemoveSNI", "EditSuites", "EditSessionId", "ExtInsert", "ExtRemove", "ExtALPN", "ExtSNIField"]
+MUTATORS = ["SetClientRandom", "SetSNI", "RemoveSNI", "EditSuites", "EditSessionId", "ExtInsert", "ExtRemove", "ExtALPN", "ExtSNIField", "InPlace", "Break"]
 CLAIMS = ["random", "sid", "suites", "sni", "nosni", "ext", "noext", "front"]
 
 
@@ -53,7 +53,7 @@ def classify(ids):
 
 def brief(s):
     return {"id": s["id"], "cls": s["cls"], "server": s["server"], "mode": s["mode"], "cached_session": s.get("sess", False),
-            "calls": [o["op"] + ("(" + o["kind"] + ")" if "kind" in o else "") for o in s["ops"]]}
+            "calls": [o["op"] + ("(" + o.get("kind", o.get("what")) + ")" if ("kind" in o or "what" in o) else "") for o in s["ops"]]}
 
 
 # ---------------------------------------------------------------- transport to TLC
@@ -257,13 +257,18 @@ def run(ctx):
     # "brk" configuration: edits that make the hello unbuildable (+ SetClientRandom, ExtInsert), PSK parrots without
     # OmitEmptyPsk: Handshake must return the build error and write nothing
     brk = lambda: gen_paths(ctx, "UConnBuild_MC_brk", 2, 900)[0]
+    # "inp" configuration: same-length edits in place of extension objects already in the list (+ SetClientRandom, SetSNI)
+    inp = lambda: gen_paths(ctx, "UConnBuild_MC_inp", 2, 900)[0]
     sni = lambda: gen_paths(ctx, "UConnBuild_MC_sni" if ctx.quick else "UConnBuild_MC_sni_full", 4, 1500)[0]
     if ctx.quick:
-        jobs = [mc_asis, lambda: gen_paths(ctx, "UConnBuild_MC", 9, 1500)[0], lambda: gen_paths(ctx, "UConnBuild_MC_nosess", 2, 600)[0], sni, brk]
+        jobs = [mc_asis, lambda: gen_paths(ctx, "UConnBuild_MC", 9, 1500)[0], lambda: gen_paths(ctx, "UConnBuild_MC_nosess", 2, 600)[0], sni, brk, inp]
     else:
-        jobs = [mc_asis, lambda: gen_paths(ctx, "UConnBuild_MC_deep", 10, 3000)[0], lambda: gen_paths(ctx, "UConnBuild_MC_alt", 3, 1500)[0], sni, brk]
-    with cf.ThreadPoolExecutor(max_workers=5) as ex:
-        _, paths, deep_paths, sni_paths, brk_paths = [f.result() for f in [ex.submit(j) for j in jobs]]
+        jobs = [mc_asis, lambda: gen_paths(ctx, "UConnBuild_MC_deep", 10, 3000)[0], lambda: gen_paths(ctx, "UConnBuild_MC_alt", 3, 1500)[0], sni, brk, inp]
+    with cf.ThreadPoolExecutor(max_workers=6) as ex:
+        _, paths, deep_paths, sni_paths, brk_paths, inp_paths = [f.result() for f in [ex.submit(j) for j in jobs]]
+    if ctx.quick:
+        inp_paths = [p for p in inp_paths if p["server"] == "plain" or nmut(p) <= 1]
+    brk_paths = brk_paths + inp_paths
     reps["pskstrict"], by["pskstrict"] = reps["psk"], by["psk"]
     if ctx.quick:
         sni_paths = [p for p in sni_paths if p["mode"] != "both" and
@@ -350,7 +355,7 @@ def run(ctx):
             ctx.findings.append(dict(ctx.findings[-1]))
 
     # ---- honesty: vacuity and canary (after the findings: a broken tree must not end as a machinery error)
-    need = MUTATORS + CLAIMS + ["Build", "BuildNoSess", "ApplyPreset", "rebuilt", "ch1", "ch2", "hrr", "hrr_cookie", "done", "done_hrr", "seeded", "psk", "sni_literal", "Break", "refused", "unbuildable", "build_failed"]
+    need = MUTATORS + CLAIMS + ["Build", "BuildNoSess", "ApplyPreset", "rebuilt", "ch1", "ch2", "hrr", "hrr_cookie", "done", "done_hrr", "seeded", "psk", "sni_literal", "refused", "unbuildable", "build_failed", "inplace_found"]
     missing = [k for k in need if totals.get(k, 0) == 0]
     if missing and not ctx.findings:
         raise vlib.Machinery("vacuous: never exercised / never judged: %r (statistics %r)" % (missing, totals))
@@ -383,6 +388,7 @@ def run(ctx):
                    "that WireIsRaw and EditsVisible were evaluated on recorded bytes (paths are distinct by construction; the rest failed before sending)"
                    % (3 if ctx.quick else 4),
            "paths_from_model": len(paths) + len(deep_paths) + len(sni_paths) + len(brk_paths),
+           "in_place_edits_claimed": totals.get("inplace_found", 0),
            "unbuildable_hellos": {k: totals.get(k, 0) for k in ("Break", "refused", "unbuildable", "build_failed", "build_err_unexplained")},
            "sni_claims_of_a_literal_or_empty_name_judged": totals.get("sni_literal", 0), "ids": sorted({s["id"] for s in scns}), "n_ids": len({s["id"] for s in scns}),
            "claims_judged_by_kind": {k: totals.get(k, 0) for k in CLAIMS},
